@@ -23,6 +23,8 @@ pub struct RConn {
     pub log: Vec<(u64, Vec<String>)>,
     pub watching: bool,
     pub next_ping: Option<PingFault>,
+    /// answer the next UNWATCH with an error (the WATCH state stays)
+    pub refuse_unwatch: bool,
     /// (seq, value, answered correctly)
     pub pings: Vec<(u64, String, bool)>,
     pub kill: bool,
@@ -165,8 +167,13 @@ async fn serve(mut s: TcpStream, k: usize, st: Arc<Mutex<RConn>>, server: Arc<RS
                     }
                 }
                 "UNWATCH" => {
-                    st.lock().unwrap().watching = false;
-                    out.extend(b"+OK\r\n");
+                    let refuse = std::mem::take(&mut st.lock().unwrap().refuse_unwatch);
+                    if refuse {
+                        out.extend(b"-NOPERM scripted refusal\r\n");
+                    } else {
+                        st.lock().unwrap().watching = false;
+                        out.extend(b"+OK\r\n");
+                    }
                 }
                 "WATCH" => {
                     st.lock().unwrap().watching = true;
